@@ -40,6 +40,9 @@ let drain fuel input r =
 
 let () =
   register "tr.slice" (function [h] -> show_run (TextReader.run_slice (bytes_of_hex h)) | _ -> "BADCASE");
+  register "tr.subslice" (function [h; n] ->
+      let d = bytes_of_hex h in
+      show_run (TextReader.run_slice (List.firstn (nat_of_int (int_of_string n)) d)) | _ -> "BADCASE");
   register "tr.stream" (function
       | cap :: sched :: h :: _ ->
         show_run (TextReader.run_stream (nat_of_int (int_of_string cap)) (parse_sched sched) (bytes_of_hex h))
